@@ -439,3 +439,57 @@ def _backpatch_sites(repo):
     lean = ("def c05BackpatchSites : List (String × List String) := [\n  "
             + ",\n  ".join(f"({lean_str(n)}, {_lean_list(s)})" for n, s in rows) + "]")
     return rows, lean
+
+
+VM_EFFECTS = [("frames+", r"\.push_frame\("), ("frames-", r"\.pop_frame\("),
+              ("caps+", r"\.begin_capture\("), ("caps-", r"\.end_capture\("),
+              ("escs+", r"auto_escape_stack\.push\("), ("escs-", r"auto_escape_stack\.pop\("),
+              ("bases+", r"loop_recursion_bases\.push\("), ("bases-", r"loop_recursion_bases\.pop\(")]
+
+
+@item("C05_VM_EFFECTS")
+def _vm_effects(repo):
+    """EVERY push / pop on the frame stack, the capture stack, the auto-escape stack and
+    `loop_recursion_bases` in `eval_impl`, counted per instruction arm (the helper `push_loop`, which
+    runs in the same activation, inlined; lines of verification hooks skipped), plus the rows
+    `recurse_loop!` (the macro body), `end-of-stream` (the `None` arm of the instruction fetch) and
+    `prologue` (everything else in front of the dispatch): (where, [frames+, frames-, caps+, caps-,
+    escs+, escs-, bases+, bases-], first arguments of the `recurse_loop!` calls of the arm, number of
+    nested evaluations started: perform_include / perform_super / call_block)"""
+    src = _strip_comments(read(repo, VM))
+    body = fn_body(src, r"fn eval_impl\s*\(")
+    m = re.search(r"\bmatch instr\s*\{", body)
+    if not m:
+        raise KeyError("eval_impl: match instr")
+    disp = body[m.end():]
+    pro = body[:m.start()]
+    mac = fn_body(pro, r"macro_rules! recurse_loop\s*\{")
+    push_loop = fn_body(src, r"fn push_loop\s*\(")
+    heads = list(re.finditer(r"^\s{16}Instruction::(\w+)(?:\([^)]*\))?\s*=>", disp, re.M))
+    if len(heads) < 40:
+        raise KeyError("eval_impl: too few arms found")
+
+    def count(text):
+        text = "\n".join(l for l in text.splitlines() if "verif" not in l)
+        return ([len(re.findall(rx, text)) for _, rx in VM_EFFECTS],
+                re.findall(r"recurse_loop!\(\s*(\w+)", text),
+                len(re.findall(r"perform_include\(|perform_super\(|Self::call_block\(", text)))
+    rows = []
+    for i, h in enumerate(heads):
+        end = heads[i + 1].start() if i + 1 < len(heads) else len(disp)
+        text = disp[h.end():end].split("\n            }\n            pc += 1;")[0]
+        text = text.replace("Self::push_loop(", "{" + push_loop + "}(")
+        rows.append((h.group(1),) + count(text))
+    rows.append(("recurse_loop!",) + count(mac))
+    mm = re.search(r"let instr = match state\.instructions\.get\(pc\)\s*\{", body)
+    if not mm:
+        raise KeyError("eval_impl: instruction fetch")
+    eos = fn_body(body[mm.start():], r"match state\.instructions\.get\(pc\)\s*\{")
+    rows.append(("end-of-stream",) + count(eos))
+    rows.append(("prologue",) + count(body[:mm.start()].replace(mac, "")))
+    # the condition of the capture of a recursion: `if $capture { out.begin_capture(..) }`
+    if not re.search(r"if \$capture\s*\{\s*out\.begin_capture\(CaptureMode::Capture\);\s*\}", mac):
+        raise KeyError("recurse_loop!: the capture is not begun under `if $capture`")
+    lean = ("def c05VmEffects : List (String × List Nat × List String × Nat) := [\n  "
+            + ",\n  ".join(f"({lean_str(n)}, [{', '.join(map(str, c))}], {_lean_list(r)}, {x})" for n, c, r, x in rows) + "]")
+    return rows, lean
